@@ -21,7 +21,7 @@ SCRATCH = {"ext4": "/var/tmp/xcp-verif" + _TAG, "tmpfs": "/dev/shm/xcp-verif" + 
 TARGET = os.path.join(SCRATCH["ext4"], "target")
 PROBE_TARGET = os.path.join(SCRATCH["ext4"], "target-probes")
 XSUP = os.path.join(VERIF, "bin", "xsup")
-XCP = os.path.join(TARGET, "release", "xcp")
+XCP = os.environ.get("XCP_BIN") or os.path.join(TARGET, "release", "xcp")   # XCP_BIN: a pre-built binary (coverage measurement only)
 NCPU = os.cpu_count() or 4
 
 FICLONE = 0x40049409
@@ -81,6 +81,8 @@ def build_xsup():
 
 def build_xcp():
     """cargo build --release of /repo's current working tree (fingerprints make it a no-op when unchanged)."""
+    if os.environ.get("XCP_BIN"):
+        return
     with _Lock("build.lock"):
         env = dict(ENV)
         env["CARGO_TARGET_DIR"] = TARGET
